@@ -322,6 +322,36 @@ func normField(f string) string {
 		l := append([]string{}, p.lits...)
 		sort.Strings(l)
 		l = dropImpliedNil(dedupeSorted(l))
+		// literals between constants (an inlined helper called with a literal nil: `nil == nil`, `nil.To16() == nil`):
+		// a tautology says nothing, a contradiction makes the path infeasible
+		{
+			var keep []string
+			infeasible := false
+			for _, x := range l {
+				neg := strings.HasPrefix(x, "!(") && strings.HasSuffix(x, ")")
+				core := x
+				if neg {
+					core = x[2 : len(x)-1]
+				}
+				if i := strings.Index(core, "=="); i > 0 {
+					a, b := core[:i], core[i+2:]
+					nilConst := func(t string) bool {
+						return strings.HasPrefix(t, "const:nil") && !strings.ContainsAny(t, "()") || strings.HasPrefix(t, "const:nil:") && strings.HasSuffix(t, ".To16()") || strings.HasPrefix(t, "const:nil:") && strings.HasSuffix(t, ".To4()")
+					}
+					if nilConst(a) && nilConst(b) {
+						if neg {
+							infeasible = true
+						}
+						continue
+					}
+				}
+				keep = append(keep, x)
+			}
+			if infeasible {
+				continue
+			}
+			l = keep
+		}
 		contra := false
 		set := map[string]bool{}
 		for _, x := range l {
